@@ -30,6 +30,12 @@ func init() {
 		s.Kill, s.MaxKill, s.DeleteJob = []string{"0"}, 1, true
 		s.Budget = mc.Budget{Faults: 1}
 		out = append(out, mk("job", "C20/job-"+s.Name, s))
+		// the same failing call twice in a row (e.g. two failed Pod deletes of a killed Job)
+		k2 := jobBase("none-kill-faults2")
+		k2.PodActions = []string{"run"}
+		k2.Kill, k2.MaxKill = []string{"0"}, 1
+		k2.Budget = mc.Budget{Faults: 2}
+		out = append(out, mk("job", "C20/job-"+k2.Name, k2))
 		// queue controller
 		q := QueueScenario{Name: "forbid-enqueue-faults", MaxConcurrency: 1, Creates: []string{"Forbid", "Enqueue", "Enqueue"}, MaxCreates: 3, Horizon: 600, Budget: mc.Budget{Faults: f}}
 		out = append(out, mk("queue", "C20/queue-"+q.Name, q))
